@@ -51,7 +51,7 @@ def define_sites(ctx, f, role_of_step):
         if n.get("k") == "mcall" and callee(n) == DEFINE_SIGNALS:
             step_arg = peel(n["args"][2])
             role, step_atoms = role_of_step(step_arg, defs, P, ix, n)
-            cl = peel(n["args"][3])
+            cl = resolve(n["args"][3])
             if cl.get("k") != "closure" or len(cl["params"]) != 1:
                 ctx.violation("R04.1", "%s:define_signals:filter-shape" % f["path"].split("::")[-1], n["sp"], "UNRECOGNISED: the filter is not a closure literal: %s" % show(n["args"][3]))
                 continue
@@ -259,7 +259,7 @@ def run(ctx):
         for i, d in defs.items():
             if d[0] == "let" and d[2].get("k") == "pbind" and "init" in d[1] and prev_id is not None:
                 init = peel(d[1]["init"])
-                if init.get("k") == "binary" and init["op"] == "+" and is_local(init["l"], prev_id) and is_lit(init["r"], 1):
+                if init.get("k") == "binary" and init["op"] == "+" and ((is_local(init["l"], prev_id) and is_lit(init["r"], 1)) or (is_local(init["r"], prev_id) and is_lit(init["l"], 1))):
                     next_id = i
         atoms = {}
         if prev_id is not None:
